@@ -1,7 +1,7 @@
 (* C19 — property theorems only.  Each is closed by [exact] of a lemma proved in C19_Proofs.v
    and followed by Print Assumptions.  "No panic" is stated over the models with CHECKED
    indexing/slicing (an out-of-range index or slice, or running out of loop fuel, is [Panic]). *)
-Require Import V.Lib V.C19_Model V.C19_Proofs V.C19_ProofsHello V.C19_ProofsWire.
+Require Import V.Lib V.C19_Model V.C19_Proofs V.C19_ProofsHello V.C19_ProofsWire V.C19_ProofsSeq.
 Open Scope N_scope.
 
 (* ---- TLS ClientHello parser: total on every byte string ---- *)
@@ -463,3 +463,64 @@ Example C19_find_incomplete_rune_length_total_nonvacuous :
   find_incomplete_rune_length [97; 240; 159; 146] 4 = Ok 3%nat /\
   find_incomplete_rune_length [97; 240; 159; 146] 1 = Ok 0%nat.
 Proof. split; reflexivity. Qed.
+
+(* HISTORY INDEPENDENCE: the recorded ClientHello of a connection is a function of THAT connection's
+   byte stream only — two arbitrary listener histories (any initial pool contents, any other
+   connections leaving anything behind, any interleaving, any choice of pooled buffer, any
+   segmentation) in which two connections delivered the same bytes record the same thing for them,
+   namely recorded_of of those bytes *)
+Theorem C19_recorded_independent_of_history :
+  forall (pool1 pool2 : list bytes) (evs1 evs2 : list ev) (id1 id2 : nat) (segs1 segs2 : list bytes),
+    own_segs evs1 id1 = Some segs1 -> own_segs evs2 id2 = Some segs2 ->
+    concat segs1 = concat segs2 ->
+    exists st1 st2, l_run true (l_init pool1) evs1 = Ok st1 /\ l_run true (l_init pool2) evs2 = Ok st2 /\
+                    recorded_for st1 id1 = recorded_for st2 id2 /\
+                    recorded_for st1 id1 = recorded_of (concat segs1).
+Proof. exact recorded_history_independent. Qed.
+Print Assumptions C19_recorded_independent_of_history.
+
+Example C19_recorded_independent_of_history_nonvacuous :
+  own_segs pool_witness 2%nat = Some [pool_rec pool_hello_b] /\
+  (own_segs [EvAccept 7 3; EvRead 7 (firstn 9 (pool_rec pool_hello_b)); EvRead 7 (skipn 9 (pool_rec pool_hello_b))] 7%nat
+    = Some [firstn 9 (pool_rec pool_hello_b); skipn 9 (pool_rec pool_hello_b)]) /\
+  concat [pool_rec pool_hello_b] = concat [firstn 9 (pool_rec pool_hello_b); skipn 9 (pool_rec pool_hello_b)].
+Proof. repeat split; reflexivity. Qed.
+
+(* whatever happened on the listener before a connection is accepted (connections that put buffers
+   with ANY leftover bytes into the pool, ANY pool to start with) and whichever pooled buffer it is
+   handed, the connection records what it would record on a fresh listener *)
+Theorem C19_earlier_connections_irrelevant :
+  forall (pool : list bytes) (pre evs : list ev) (id k : nat),
+    exists st st', l_run true (l_init pool) (pre ++ EvAccept id k :: evs) = Ok st /\
+                   l_run true (l_init []) (EvAccept id 0 :: evs) = Ok st' /\
+                   recorded_for st id = recorded_for st' id.
+Proof. exact earlier_history_irrelevant. Qed.
+Print Assumptions C19_earlier_connections_irrelevant.
+
+(* {hostonly} is a contiguous piece of the peer's Host and {server_port} the default or a suffix of
+   it, for EVERY Host (empty labels, trailing dots, dots or colons in the port, IPv6 literals,
+   unbalanced brackets): the SplitHostPort model (GoNet, firstn/skipn only) has no failing index *)
+Theorem C19_hostonly_is_piece_of_host :
+  forall host : bytes, exists a b, host = a ++ host_only host ++ b.
+Proof. exact host_only_piece. Qed.
+Print Assumptions C19_hostonly_is_piece_of_host.
+
+Theorem C19_server_port_is_suffix_of_host :
+  forall host : bytes, server_port host = lit_80 \/ exists a, host = a ++ server_port host.
+Proof. exact server_port_suffix. Qed.
+Print Assumptions C19_server_port_is_suffix_of_host.
+
+(* {labelN} VALUE, full strength: for EVERY Host header and EVERY N text, the model with checked
+   indexing (labels[n-1] = Lib.idx) never panics and yields exactly label_spec — the N-th
+   dot-separated piece of the Host AS SENT (a port containing dots, empty labels, trailing dots,
+   IPv6 literals are split like any other text), the empty value when N is not in 1..#pieces;
+   the number of pieces is 1 + the number of dots, whatever else the Host contains *)
+Theorem C19_label_subst_value :
+  forall host nstr : bytes, label_subst host nstr = Ok (label_spec host nstr).
+Proof. exact label_subst_value. Qed.
+Print Assumptions C19_label_subst_value.
+
+Theorem C19_label_pieces_count :
+  forall host : bytes, length (split 46 host) = S (length (filter (fun c => N.eqb c 46) host)).
+Proof. exact label_pieces_count. Qed.
+Print Assumptions C19_label_pieces_count.
